@@ -207,10 +207,9 @@ theorem emitResults_nested : ∀ (f : Nat) (s : Sess) (n : List Ctx),
     simp only [Sess.emitResults]
     split
     · split
-      · rename_i v m1 hp
-        have ih := emitResults_nested f (({ s with m := m1 } : Sess).emit (Mach.loadValueOp v)) n
+      · rename_i v rest hd
+        have ih := emitResults_nested f (({ s with m := { s.m with ds := rest } } : Sess).emit (Mach.loadValueOp v)) n
         exact ⟨ih.1, ih.2⟩
-      · exact ⟨rfl, rfl⟩
       · exact ⟨rfl, rfl⟩
     · exact ⟨rfl, rfl⟩
 
